@@ -577,6 +577,62 @@ def run_share_scope_clash(ctx, i, rng):
         ctx.check(n_kernels == 2, 'tree:share_scope_members', lambda: dict(case=desc, kernels=n_kernels))
 
 
+def run_pytree_param(ctx, i, rng):
+  """A parameter whose value is a pytree (a dict of arrays returned by the initializer, optionally boxed): apply checks the supplied
+  value leaf by leaf - a missing, surplus or renamed leaf is a wrongly-shaped parameter and raises ScopeParamShapeError, the exact
+  tree is accepted."""
+  import jax
+  import jax.numpy as jnp
+  import flax.linen as nn
+  from flax import errors
+  edit = ['exact', 'missing_leaf', 'surplus_leaf', 'renamed_leaf', 'wrong_shape', 'exact_frozen', 'nested_missing'][i % 7]
+  boxed = (i // 7) % 2 == 1
+  desc = dict(edit=edit, boxed=boxed)
+  with ctx.case('pytree_param', i, desc, nontrivial=True):
+    def init_fn(key):
+      val = {'a': jnp.ones((3,)), 'b': jnp.full((3,), 2.0), 'sub': {'c': jnp.full((1,), 3.0)}}
+      return nn.Partitioned(val, names=(None,)) if boxed else val
+
+    class M(nn.Module):
+      @nn.compact
+      def __call__(self, x):
+        p = self.param('p', init_fn)
+        return x * p['a'] + p['b'] + p['sub']['c']
+
+    x = jnp.ones((2, 3))
+    good = {'a': jnp.ones((3,)), 'b': jnp.full((3,), 2.0), 'sub': {'c': jnp.full((1,), 3.0)}}
+    val = dict(good, sub=dict(good['sub']))
+    if edit == 'missing_leaf':
+      del val['b']
+    elif edit == 'surplus_leaf':
+      val['zzz'] = jnp.ones((3,))
+    elif edit == 'renamed_leaf':
+      val['c'] = val.pop('b')
+    elif edit == 'wrong_shape':
+      val['b'] = jnp.ones((7,))
+    elif edit == 'nested_missing':
+      val['sub'] = {}
+    elif edit == 'exact_frozen':
+      from flax.core import freeze
+      val = freeze(val)
+    stored = nn.Partitioned(val, names=(None,)) if boxed else val
+    raised = None
+    try:
+      y = M().apply({'params': {'p': stored}}, x)
+    except errors.ScopeParamShapeError as e:
+      raised = e
+    except (KeyError, TypeError) as e:
+      # the module body tripped over the wrong structure: the check let it through
+      raised = None
+      ctx.check(False, 'apply:pytree_param_structure_not_checked', dict(case=desc, then=repr(e)[:200]))
+      return
+    ctx.op('apply(pytree-valued parameter: %s)' % edit)
+    if edit.startswith('exact'):
+      ctx.check(raised is None, 'apply:exact_pytree_param_rejected', lambda: dict(case=desc, error=repr(raised)[:300]))
+    else:
+      ctx.check(raised is not None, 'apply:pytree_param_structure_not_checked', lambda: dict(case=desc))
+
+
 def run_reentrant(ctx, i, rng):
   """Re-entrant compact methods (a subclass calling super().__call__, a method calling self recursively): auto-names keep
   counting in creation order across the re-entrant calls, so every layer gets its own subtree."""
@@ -728,6 +784,8 @@ def run(ctx):
     run_reentrant(ctx, i, ctx.rng('reentrant', i))
   for i in ctx.indices(144 if ctx.tier == 'quick' else 288, 'shared_shape'):
     run_shared_shape(ctx, i, ctx.rng('shared_shape', i))
+  for i in ctx.indices(14, 'pytree_param'):
+    run_pytree_param(ctx, i, ctx.rng('pytree_param', i))
   for i in ctx.indices(12, 'share_scope_clash'):
     run_share_scope_clash(ctx, i, ctx.rng('share_scope_clash', i))
   for i in ctx.indices(12, 'name_scope'):
